@@ -297,3 +297,49 @@ func (p *parser) primary() Expr {
 	}
 	panic("unexpected token " + t.v)
 }
+
+// substIdents replaces identifiers by expressions (the "let" abbreviations of a contract).
+func substIdents(x Expr, m map[string]Expr) Expr {
+	if len(m) == 0 {
+		return x
+	}
+	switch n := x.(type) {
+	case Ident:
+		if r, ok := m[n.Name]; ok {
+			return r
+		}
+		return n
+	case Unary:
+		return Unary{n.Op, substIdents(n.X, m)}
+	case Binary:
+		return Binary{n.Op, substIdents(n.X, m), substIdents(n.Y, m)}
+	case Sel:
+		return Sel{substIdents(n.X, m), n.Name}
+	case Index:
+		return Index{substIdents(n.X, m), substIdents(n.I, m)}
+	case Call:
+		args := make([]Expr, len(n.Args))
+		for i, a := range n.Args {
+			args[i] = substIdents(a, m)
+		}
+		return Call{n.Fun, args}
+	case Forall:
+		m2 := map[string]Expr{}
+		for k, v := range m {
+			if k != n.Var {
+				m2[k] = v
+			}
+		}
+		f := Forall{Var: n.Var, Sort: n.Sort, Body: substIdents(n.Body, m2)}
+		if n.Lo != nil {
+			f.Lo = substIdents(n.Lo, m)
+		}
+		if n.Hi != nil {
+			f.Hi = substIdents(n.Hi, m)
+		}
+		return f
+	case Ite:
+		return Ite{substIdents(n.C, m), substIdents(n.A, m), substIdents(n.B, m)}
+	}
+	return x
+}
